@@ -38,6 +38,7 @@ TEXT = {
     "sort": "sort/argsort return an ascending permutation; np.unique returns sorted distinct values",
     "round": "np.round is round-half-even",
     "rng": "np.random.Generator(SFC64(seed)) is a deterministic function of seed",
+    "similarity": "R^H M R with R unitary has the same (ascending) eigenvalues as the Hermitian M",
     "interlacing": "Cauchy interlacing: Ritz values of a Hermitian matrix on an orthonormal subspace are >= the exact ones",
     "trace-eigs": "trace of a Hermitian matrix equals the sum of its eigenvalues",
     "gaussian-moments": "int_0^inf x^(2k) exp(-a x^2) dx closed forms; Gaussian Fourier/Hankel transforms",
